@@ -40,9 +40,6 @@ func verifC43RandBytes(buf []byte) {}
 
 const verifC43Digests = 3
 
-//verif:noop sync/atomic.init
-//verif:noop internal/runtime/atomic.init
-
 //verif:harness prop=C43 reach=done,duplicate-suppressed,rotated-out,promoted,second-rotation,evicted-at-bound unwind=16 budget=200 thorough.budget=2400 thorough.paths=400000
 //verif:stub github.com/algorand/go-algorand/crypto.RandBytes = verifC43RandBytes
 func VerifC43FilterRetention() {
